@@ -21,6 +21,8 @@ func (w *verifW) u16(v uint16) { w.u8(uint8(v >> 8)); w.u8(uint8(v)) }
 func (w *verifW) u32(v uint32) { w.u16(uint16(v >> 16)); w.u16(uint16(v)) }
 
 type verifTpl struct {
+	fd     verifField // the decoy template's only field: octetArray, 6 octets
+	decoy  uint16
 	tid    uint16
 	f1, f2 verifField
 	l      int
@@ -31,16 +33,28 @@ func verifMsgTemplate() verifTpl {
 	var t verifTpl
 	t.tid = verifNondetU16()
 	verifAssume(t.tid > 255)
+	t.decoy = verifNondetU16()
+	verifAssume(verifAll(t.decoy > 255, t.decoy != t.tid))
 	t.f1 = verifArbField(Uint32, 0)
 	t.f2 = verifArbField(String, 0)
+	t.fd = verifArbField(OctetArray, 0)
+	verifAssume(t.fd.spec.Length == 6)
 	t.l = 1 + verifCase(3)
 	verifAssume(int(t.f2.spec.Length) == t.l)
 	return t
 }
 
+// the template flowset carries TWO template records: a decoy (another id, one 2-octet field)
+// and then the real one, so that per-record state of the template parser matters
+const verifTplSetLen = 4 + 8 + 4 + 8
+
 func (t verifTpl) writeTplSet(w *verifW) {
 	w.u16(0)
-	w.u16(4 + 4 + 8)
+	w.u16(verifTplSetLen)
+	w.u16(t.decoy)
+	w.u16(1)
+	w.u16(t.fd.spec.ElementID)
+	w.u16(6)
 	w.u16(t.tid)
 	w.u16(2)
 	w.u16(t.f1.spec.ElementID)
@@ -91,10 +105,11 @@ func verifAddrEq4(a, b net.IP) bool {
 // template and data in one packet; two records; flowset padding 0..3.
 func VerifV9MessageOne() {
 	t := verifMsgTemplate()
-	r1, r2 := verifArbRec(t), verifArbRec(t)
+	r1, r2, r3 := verifArbRec(t), verifArbRec(t), verifArbRec(t)
 	pad := verifCase(4)
-	dlen := 4 + 2*(4+t.l) + pad
-	total := 20 + 16 + dlen
+	dlen := 4 + 3*(4+t.l) + pad
+	dec := verifNondetBytes(6) // one record of the decoy template, in a data flowset of its own
+	total := 20 + verifTplSetLen + dlen + 10
 	w := &verifW{b: make([]byte, total)}
 	cnt, up, secs, seq, src := verifWriteHeader(w)
 	t.writeTplSet(w)
@@ -102,21 +117,37 @@ func VerifV9MessageOne() {
 	w.u16(uint16(dlen))
 	r1.write(w)
 	r2.write(w)
+	r3.write(w)
 	for i := 0; i < pad; i++ {
 		w.u8(0)
 	}
-	addr := net.IP(verifNondetBytes(4))
+	w.u16(t.decoy)
+	w.u16(10)
+	for i := 0; i < 6; i++ {
+		w.u8(dec[i])
+	}
+	addr := net.IP{198, 51, 100, 77} // (the exporter address plays no role here; C04 covers it)
+	shardNo = 2 // (the sharding arithmetic is C04's subject)
 	m := verifNewCache()
-	_, h1 := m.getShard(t.tid, addr)
-	verifAssume(int(h1%32) == verifSplit(verifParam("shards", 32)))
+	verifAssume(int(verifRefHash(addr, t.tid)%2) == verifSplit(2))
+	if verifKnown("C04-hash-collision") {
+		verifAssume(verifRefHash(addr, t.tid) != verifRefHash(addr, t.decoy))
+	}
 	msg, err := NewDecoder(addr, w.b).Decode(m)
 	verifAssert(err == nil, "well-formed packet decodes without error")
 	verifAssert(msg != nil, "well-formed packet yields a message")
 	h := msg.Header
 	verifAssert(verifAll(h.Version == 9, h.Count == cnt, h.SysUpTime == up, h.UNIXSecs == secs, h.SeqNum == seq, h.SrcID == src), "packet header fields")
-	verifAssert(len(msg.DataSets) == 2, "exactly one entry per data record")
+	verifAssert(len(msg.DataSets) == 4, "exactly one entry per data record")
 	verifCheckRec(msg.DataSets[0], t, r1)
 	verifCheckRec(msg.DataSets[1], t, r2)
+	verifCheckRec(msg.DataSets[2], t, r3)
+	// the record of the first template of the template flowset (decoded with ITS template)
+	verifAssert(len(msg.DataSets[3]) == 1, "decoy record has its one field")
+	verifAssert(msg.DataSets[3][0].ID == t.fd.entry.FieldID, "decoy record: field type id")
+	dv, okd := msg.DataSets[3][0].Value.([]byte)
+	verifAssert(okd, "decoy record: octetArray value")
+	verifAssert(verifBytesEq(dv, dec), "decoy record: octets")
 	verifReach("end")
 }
 
@@ -125,7 +156,7 @@ func VerifV9MessageOne() {
 func VerifV9MessageTwo() {
 	t := verifMsgTemplate()
 	r1 := verifArbRec(t)
-	w1 := &verifW{b: make([]byte, 20+16)}
+	w1 := &verifW{b: make([]byte, 20+verifTplSetLen)}
 	verifWriteHeader(w1)
 	t.writeTplSet(w1)
 	did := verifNondetU16()
@@ -139,14 +170,17 @@ func VerifV9MessageTwo() {
 
 	a := net.IP(verifNondetBytes(4))
 	b := net.IP(verifNondetBytes(4))
+	shardNo = 2
 	m := verifNewCache()
-	_, h1 := m.getShard(t.tid, a)
-	verifAssume(int(h1%32) == verifSplit(verifParam("shards", 32)))
-	_, h2 := m.getShard(did, b)
-	verifAssume(verifAny((h2-h1)%32 == 0, (h2-h1)%32 == 1))
+	verifAssume(int(verifRefHash(a, t.tid)%2) == verifSplit(2))
 	same := verifAll(verifAddrEq4(a, b), did == t.tid)
-	if !same && verifKnown("C04-hash-collision") {
-		verifAssume(verifRefHash(a, t.tid) != verifRefHash(b, did))
+	// the first packet also announces the decoy template: data under that id is not "unknown"
+	verifAssume(!verifAll(verifAddrEq4(a, b), did == t.decoy))
+	if verifKnown("C04-hash-collision") {
+		verifAssume(verifRefHash(a, t.tid) != verifRefHash(a, t.decoy))
+		if !same {
+			verifAssume(verifAll(verifRefHash(a, t.tid) != verifRefHash(b, did), verifRefHash(a, t.decoy) != verifRefHash(b, did)))
+		}
 	}
 	msg1, err1 := NewDecoder(a, w1.b).Decode(m)
 	verifAssert(verifAll(err1 == nil, msg1 != nil), "template-only packet decodes")
